@@ -66,6 +66,33 @@ def imitates : List Record → Bool
   | a :: b :: t => (decide (a = ⟨0x6144, 0x536e, 0⟩ ∧ b = ⟨0, 0, 0⟩)) || imitates (b :: t)
   | _ => false
 
+/-! ### what "a well-formed `DanS … Rich key` trailer" means for an arbitrary DOS area -/
+
+/-- `area` (the dwords before `e_lfanew`) carries a header at dwords `[s, e)` with key `k`:
+`DanS^k, k, k, k` at `s`, `Rich, k` right before `e`, an even number of dwords in between, at least
+the 16 dwords of the DOS header before it and nothing but zeroes after it. -/
+def WellFormedAt (area : List Nat) (s e k : Nat) : Prop :=
+  16 ≤ s ∧ s + 6 ≤ e ∧ e ≤ area.length ∧ (e - s) % 2 = 0 ∧
+  area[s]? = some (dans ^^^ k) ∧ area[s + 1]? = some k ∧ area[s + 2]? = some k ∧ area[s + 3]? = some k ∧
+  area[e - 2]? = some rich ∧ area[e - 1]? = some k ∧
+  (∀ j, j < area.length → e ≤ j → area[j]? = some 0)
+
+instance (area : List Nat) (s e k : Nat) : Decidable (WellFormedAt area s e k) := by
+  unfold WellFormedAt; infer_instance
+
+/-- number of trailing zero dwords -/
+def trailingZeros (area : List Nat) : Nat := (area.reverse.takeWhile (· == 0)).length
+
+/-- every `(s, e, k)` with `WellFormedAt area s e k`, by brute force (used by the driver only:
+"is there any well-formed trailer at all?").  The key is the last non-zero dword, or zero when the
+last non-zero dword is `Rich` itself. -/
+def parses (area : List Nat) : List (Nat × Nat × Nat) :=
+  let t := trailingZeros area
+  let e1 := area.length - t
+  let cands := [(e1, area.getD (e1 - 1) 0)] ++ (if t ≥ 1 then [(e1 + 1, 0)] else [])
+  cands.flatMap fun (e, k) =>
+    (List.range (e + 1)).filterMap fun s => if WellFormedAt area s e k then some (s, e, k) else none
+
 /-! ### iterators: the reference is a double-ended queue of the records -/
 
 inductive Op
